@@ -193,16 +193,21 @@ pub open spec fn br_cat2(x: Brick, y: Brick, w: Seq<char>) -> bool {
 
 // ---------------- normalize ---------------------------------------------------------------------------------------------------
 
-/// upper bound of a brick value as a number (Top bricks are never merged by normalize: 0)
-pub open spec fn br_max_of(b: BrickDomain) -> nat {
-    match b { BrickDomain::Top => 0, BrickDomain::Value(x) => x.max as nat }
+/// TERMINATION MEASURE of normalize.  A brick is in normal form when it is Top, [S]^{1,1} or [S]^{0,max}; a brick that is not
+/// weighs 3, every other brick 1.  Rules 3 and 5 turn one brick that is not in normal form into one resp. two that are
+/// (3 -> 1, 3 -> 1 + 1), rules 1, 2 and 4 remove one brick and leave only normal-form bricks in its place (1 -> 0, 1 + 1 -> 1).
+pub open spec fn br_weight(b: BrickDomain) -> nat {
+    match b {
+        BrickDomain::Top => 1,
+        BrickDomain::Value(x) => if (x.min == 1 && x.max == 1) || x.min == 0 { 1 } else { 3 },
+    }
 }
 
-/// sum of the upper bounds of the bricks of a list: rule 4 of normalize adds upper bounds of neighbours in u32
-pub open spec fn br_max_sum(l: Seq<BrickDomain>) -> nat
+/// sum of the weights of the bricks of a list: every rule application of normalize decreases it
+pub open spec fn br_measure(l: Seq<BrickDomain>) -> nat
     decreases l.len()
 {
-    if l.len() == 0 { 0 } else { br_max_sum(l.drop_last()) + br_max_of(l.last()) }
+    if l.len() == 0 { 0 } else { br_measure(l.drop_last()) + br_weight(l.last()) }
 }
 
 /// the two lists represent the same strings
@@ -215,13 +220,3 @@ pub open spec fn br_product(a: Set<String>, b: Set<String>, w: Seq<char>) -> boo
     exists |u: Seq<char>, v: Seq<char>| #![trigger u + v] br_member(a, u) && br_member(b, v) && w =~= u + v
 }
 
-/// every brick of the list has an upper bound within the interval threshold of the widening (Top bricks: none)
-pub open spec fn br_list_small(l: Seq<BrickDomain>) -> bool {
-    forall |i: int| 0 <= i < l.len() ==> br_max_of(#[trigger] l[i]) <= INTERVAL_THRESHOLD
-}
-
-impl BricksDomain {
-    pub open spec fn br_small(&self) -> bool {
-        match *self { BricksDomain::Top => true, BricksDomain::Value(l) => br_list_small(l@) }
-    }
-}
